@@ -46,6 +46,11 @@ fn entry_alphabet() -> Vec<Entry> {
     v.push(def("forall X (d3(X) <-> und(X))", ("d3", 1), Some("body mentions an undefined predicate")));
     v.push(def("forall X (d3(X) -> in(X))", ("d3", 1), Some("not an equivalence")));
     v.push(def("forall X Y (d3(X) <-> in(X))", ("d3", 1), Some("quantified variables differ from the arguments")));
+    // a task predicate's symbol at another arity is a new predicate; 0-ary definitions
+    v.push(def("forall X Y (out(X, Y) <-> in(X) and in(Y) and X < Y)", ("out", 2), None));
+    v.push(def("forall X Y (aux(X, Y) <-> in(X) and out(Y))", ("aux", 2), None));
+    v.push(def("d0 <-> exists X (in(X) and X > 1)", ("d0", 0), None));
+    v.push(lem("forall X Y (out(X, Y) -> in(X)) and (d0 -> exists X in(X))"));
     v
 }
 
@@ -365,7 +370,7 @@ pub fn run(run: &Run) {
     let tasks = base_tasks();
     run.set_extra("outlines_generated", json!(outlines.len()));
     run.set_extra("base_tasks", json!(tasks.len()));
-    run.set_rule("every outline of 1-2 entries and a stride of 3-entry outlines over 19 entry shapes (4 lemmas incl. free variables and a reference to a definition, 3 inductive lemmas incl. negative start, extra variables, induction variable rebound inside; 12 definitions, 10 of them invalid for a listed reason) x 3 direction annotations, on 4 base tasks (program/program with assumption, clashing private predicates, specification with directed formulas, placeholder) x 3 task directions x 2 decompositions: structural check of every emitted problem (axioms only from premises of the direction, accepted definitions, lemmas established earlier; order; obligations present), definition acceptance against the reference predicate, and semantic check of every base/step obligation against environment-update evaluation on all interpretations; non-trivial = distinct (problem-name list) / step tables");
+    run.set_rule("every outline of 1-2 entries and a stride of 3-entry outlines over 23 entry shapes (5 lemmas incl. free variables and references to definitions, 3 inductive lemmas incl. negative start, extra variables, induction variable rebound inside; 15 definitions incl. 0-ary ones and task-predicate symbols at another arity, 10 of them invalid for a listed reason) x 3 direction annotations, on 6 base tasks (program/program with assumption, clashing private predicates, specification with directed formulas, placeholder, declared-only second input with and without an assumption) x 3 task directions x 2 decompositions: structural check of every emitted problem (axioms only from premises of the direction, accepted definitions, lemmas established earlier; order; obligations present), definition acceptance against the reference predicate, and semantic check of every base/step obligation against environment-update evaluation on all interpretations; non-trivial = distinct (problem-name list) / step tables");
     let plain_cache: Vec<Vec<(String, Decomposition, Vec<Problem>)>> = tasks
         .iter()
         .map(|t| {
